@@ -24,6 +24,8 @@ pub fn file_pos(
     snap: &ServerSnapshot,
     doc: lsp_types::TextDocumentPositionParams,
 ) -> (FilePosition, Arc<LineIndex>) {
+    #[cfg(feature = "verif")]
+    crate::verif::point("vfs.read.before");
     let vfs = snap.vfs.read().unwrap();
     let path = UrlExt::to_file_path(&doc.text_document.uri);
     let file_id = vfs.file_for_path(&path).unwrap();
@@ -37,6 +39,8 @@ pub fn file_range(
     doc: lsp_types::TextDocumentIdentifier,
     lsp_range: lsp_types::Range,
 ) -> (FileRange, Arc<LineIndex>) {
+    #[cfg(feature = "verif")]
+    crate::verif::point("vfs.read.before");
     let vfs = snap.vfs.read().unwrap();
     let path = UrlExt::to_file_path(&doc.uri);
     let file_id = vfs.file_for_path(&path).unwrap();
@@ -49,6 +53,8 @@ pub fn file(
     snap: &ServerSnapshot,
     doc: lsp_types::TextDocumentIdentifier,
 ) -> (FileId, Arc<LineIndex>) {
+    #[cfg(feature = "verif")]
+    crate::verif::point("vfs.read.before");
     let vfs = snap.vfs.read().unwrap();
     let path = UrlExt::to_file_path(&doc.uri);
     let file_id = vfs.file_for_path(&path).unwrap();
